@@ -65,6 +65,14 @@ def plan(tier):
         p.append((r_scn, 0 if q else 1, 0.3))
     p.append((S.G1(), 0 if q else 1, 3))
     p.append((S.G2(), 0 if q else 1, 3))
+    # states marked for removal after use ("... or recreated after a cleanup"): producer and dependant selected together, setup in the shared pool
+    from vt.checks.c05 import GG
+
+    v12 = [("image1_vm1", "install"), ("image1_vm1", "customize"), ("image1_vm1", "linux_virtuser"),
+           ("image1_vm2", "install"), ("image1_vm2", "customize"), ("image1_vm2", "windows_virtuser")]
+    for lazy in (True, False):
+        p.append((GG(lazy=lazy, shared=v12).variant("/shared=setup"), 1 if q else 2, 1))
+        p.append((GG(lazy=lazy, shared=v12, params={"pool_scope": "own shared"}).variant("/shared=setup,scope=own+shared"), 0 if q else 1, 0.5))
     # COMPLETE enumeration (no deviation bound): every duration / outcome / tie-order sequence of small graphs
     p.append((S.T1(shared=S.VM1_CHAIN[:2]).variant("/shared=install+customize,ALL-SCHEDULES"), 99, 0.5))
     p.append((S.T1("net1 net2 net3", shared=S.VM1_CHAIN[:2]).variant("/shared=install+customize,ALL-SCHEDULES"), 99, 0.5))
